@@ -628,6 +628,22 @@ Definition uniform_operands (A : Type) (sem : string -> list nat -> list (tensor
   forall ef n vs, eval (tensor A) sem (tg_nodes g) e = Some ef -> In n (tg_nodes g) -> is_elem n = true ->
     str_in (nop n) pw_ops_all = true -> lookups (tensor A) ef (n_uses n) = Some vs -> operands_ok vs.
 
+(* every operator a chain member may have is in the elementwise tables of the DAG phases *)
+Lemma allowed_is_elem n : str_in (nop n) ALLOWED_ELEMWISE = true -> is_elem n = true.
+Proof.
+  intro H. apply str_in_In in H.
+  assert (Hall : forallb (fun o => str_in o ELEMENTWISE_UNARY_OPS || str_in o ELEMENTWISE_BINARY_OPS) ALLOWED_ELEMWISE = true) by (vm_compute; reflexivity).
+  rewrite forallb_forall in Hall. exact (Hall _ H).
+Qed.
+
+(* what a fold leaves of the old run: outside [changed] every value is kept (teq); the nodes producing a changed name are
+   elementwise, without nested graphs, and are nodes of the rewritten graph *)
+Definition frame3 (A : Type) (sem : string -> list nat -> list (tensor A) -> option (list (tensor A))) (ns' : list node)
+  (changed : list name) (e ef : env (tensor A)) : Prop :=
+  (exists ef', eval (tensor A) sem ns' e = Some ef' /\ forall x w, ef' x = Some w -> exists v, ef x = Some v /\ (In x changed \/ teq v w)) /\
+  (forall n y, In n ns' -> In y (n_outs n) -> In y changed -> is_elem n = true /\ n_caps n = []) /\
+  (forall y, In y changed -> In y (defs ns')).
+
 Section TSound.
   Variable A : Type.
   Notation V := (tensor A).
@@ -1101,6 +1117,33 @@ Section TSound.
           * exact (proj1 (trl_teq x v w (Hclean x (or_introl eq_refl)) Hx)).
           * apply IH. intros x0 H0. apply Hclean. now right.
     Qed.
+    Theorem tchain_frame : frame3 A sem nodes' (chain_outs a) e ef.
+    Proof.
+      destruct taction_env as (ef' & Hev' & Hi). split; [|split].
+      - exists ef'. split; [exact Hev'|]. intros x w Hx. destruct (tnew_defined ef' x w Hev' Hi Hx) as (v & Ev & Hr).
+        exists v. split; [exact Ev|]. destruct (tinD x) eqn:Ed; [|right; exact (trl_teq x v w Ed Hr)].
+        apply tinD_In in Ed. destruct Ed as [<-|Hc]; [|now left]. exfalso.
+        (* T1's output is not defined in the rewritten run *)
+        assert (Hdef : ef' (ac_t1 a) <> None) by congruence.
+        destruct (eval_dom V sem _ _ _ _ Hev' Hdef) as [He|Hd].
+        + apply He. apply (proj2 (tadm_ssa _ _ Hadm)). unfold defs. apply in_flat_map. exists T1. split; [apply (cs_T1_in _ _ _ _ _ Hcs)|].
+          rewrite (cs_T1_outs _ _ _ _ _ Hcs). now left.
+        + unfold defs, nodes' in Hd. apply in_flat_map in Hd as (m' & Hm' & Hy). apply in_map_iff in Hm' as (m & <- & Hm). apply filter_In in Hm as [Hm Hk].
+          pose proof (tkept_plain m (ac_t1 a) Hm Hk Hy) as E. rewrite (rho_t1 _ _ a T1 T2 Hcs) in E.
+          exact (src_ne_t1 _ _ a T1 T2 Hcs E).
+      - intros n' y Hn' Hy Hyc. unfold nodes' in Hn'. apply in_map_iff in Hn' as (m & <- & Hm). apply filter_In in Hm as [Hm Hk].
+        cbn [subst_map n_outs] in Hy. unfold chain_outs in Hyc. apply in_map_iff in Hyc as (c & <- & Hc).
+        pose proof (cs_chain_in _ _ _ _ _ Hcs c Hc) as Hcin. pose proof (cs_chain_outs _ _ _ _ _ Hcs c Hc) as Hco.
+        assert (m = c) by (apply (defs_unique (tg_nodes g) m c (out_of c) Hnd Hm Hcin Hy); rewrite Hco; now left). subst m.
+        destruct (tchain_in g _ _ c (tf_chain _ _ _ _ _ _ Htf) Hdf Hc) as (prev & y0 & _ & _ & _ & Hcaps & _ & Hallow & _).
+        split; [|cbn [subst_map n_caps]; now rewrite Hcaps].
+        pose proof (allowed_is_elem c Hallow) as He. unfold is_elem, nop in *. exact He.
+      - intros y Hyc. unfold chain_outs in Hyc. apply in_map_iff in Hyc as (c & <- & Hc).
+        destruct (chain_nonempty_member _ _ a T1 T2 Hcs c Hc) as [_ Hk]. unfold defs, nodes'. apply in_flat_map.
+        exists (subst_map (rho a) c). split; [apply in_map; apply filter_In; split; [exact (cs_chain_in _ _ _ _ _ Hcs c Hc) | exact Hk]|].
+        cbn [subst_map n_outs]. rewrite (cs_chain_outs _ _ _ _ _ Hcs c Hc). now left.
+    Qed.
+
   End TAction.
 End TSound.
 
@@ -1292,6 +1335,36 @@ Section TPassSound.
         destruct (Hrel' _ _ Ew) as (v0 & Ev0 & Ht). unfold rn in Ev0. destruct (Nat.eqb_spec u b) as [->|Hub].
         * destruct (Hfin v Eu) as (b0 & Eb0 & Hvb). rewrite Ev0 in Eb0. injection Eb0 as <-. rewrite (proj1 Hvb). exact (proj1 Ht).
         * rewrite Eu in Ev0. injection Ev0 as <-. exact (proj1 Ht).
+  Qed.
+
+  Theorem tmulti_frame g e ef T1 T2 p q src a0 b :
+    tadmissible g e -> In T1 (tg_nodes g) -> In T2 (tg_nodes g) ->
+    is_T T1 = true -> perm_of T1 = Some p -> In src (n_ins T1) -> In a0 (n_outs T1) ->
+    is_T T2 = true -> perm_of T2 = Some q -> In a0 (n_ins T2) -> In b (n_outs T2) -> inv_ok p q = true -> src <> b ->
+    evalg (tg_nodes g) e = Some ef ->
+    frame3 A sem (g_nodes (redirect_remove b src (tg_graph g))) [] e ef.
+  Proof.
+    intros Hadm H1 H2 HT1 Hp1 Hs1 Ho1 HT2 Hp2 Hi2 Ho2 Hinv Hne Hev. pose proof (tadm_ssa _ _ _ _ Hadm) as Hssa.
+    assert (Hfin : forall a, ef b = Some a -> exists b0, ef src = Some b0 /\ teq a b0).
+    { intros a Ha. exact (tmulti_fin g e ef T1 T2 p q src a0 b a Hadm H1 H2 HT1 Hp1 Hs1 Ho1 HT2 Hp2 Hi2 Ho2 Hinv Hev Ha). }
+    assert (Hav : avail_before V sem (tg_nodes g) e src b).
+    { intros pre post em a Hsplit Hpre Hfa.
+      assert (Ha0 : em a0 <> None).
+      { eapply (avail_from_producer V sem (tg_nodes g) e T2 a0 b Hssa H2); eauto. unfold n_uses. apply in_or_app. now left. }
+      destruct (em a0) as [va|] eqn:Ea; [|congruence].
+      eapply (avail_from_producer V sem (tg_nodes g) e T1 src a0 Hssa H1); eauto. unfold n_uses. apply in_or_app. now left. }
+    destruct (redirect_remove_env V teq (@teq_refl A) (@teq_sym A) (@teq_trans A) sem sem_proper (tg_graph g) e b src ef Hssa Hne Hfin Hav Hev)
+      as (ef' & Hev' & Hrel).
+    destruct (tnode_final g e ef T2 q Hadm Hev H2 HT2 Hp2) as (u2 & y2 & _ & _ & _ & Eo2 & _).
+    assert (Hb : n_outs T2 = [b]) by (rewrite Eo2 in *; destruct Ho2 as [->|[]]; reflexivity).
+    assert (Hex : existsb (node_is b) (tg_nodes g) = true).
+    { apply existsb_exists. exists T2. split; auto. unfold node_is. rewrite Hb. apply Nat.eqb_refl. }
+    pose proof (redirect_remove_o_undefined V sem (tg_graph g) e b src ef' Hssa Hex Hev') as Hundef.
+    split; [|split].
+    - exists ef'. split; [exact Hev'|]. intros y w Hy. destruct (Nat.eq_dec y b) as [->|Hyb]; [congruence|].
+      destruct (Hrel y w Hyb Hy) as (v & Ev & Ht). exists v. split; [exact Ev | now right].
+    - intros n y _ _ [].
+    - intros y [].
   Qed.
 
   (* ---- ordering facts of an SSA run: a node's inputs are other names than its outputs, and so are the inputs of
